@@ -647,6 +647,63 @@ fn canon_delta(spec: &str) -> String {
         .join(";")
 }
 
+fn elem_to_json(el: &str) -> Option<(String, String, serde_json::Value)> {
+    let c = contents();
+    let f: Vec<&str> = el.split(',').collect();
+    match f.as_slice() {
+        ["P", u, cid] => Some(("Publish".into(), u.to_string(),
+            serde_json::json!({"uri": u, "base64": c.b64[parse_cid(cid)].as_str()}))),
+        ["U", u, hid, cid] => Some(("Update".into(), u.to_string(), serde_json::json!({
+            "uri": u, "hash": c.hash(parse_cid(hid)).to_string(), "base64": c.b64[parse_cid(cid)].as_str()}))),
+        ["W", u, hid] => Some(("Withdraw".into(), u.to_string(),
+            serde_json::json!({"uri": u, "hash": c.hash(parse_cid(hid)).to_string()}))),
+        _ => None,
+    }
+}
+
+/// `merge <staged elems> | <delta elems>`: `StagedElements::merge_new_elements` through the hook.
+fn merge_op(op: &str) -> (String, String) {
+    let w: Vec<&str> = op.split_whitespace().collect();
+    if w.len() != 4 || w[2] != "|" {
+        return (op.to_string(), "ret=badop".into());
+    }
+    let line = format!("merge {} | {}", canon_delta(w[1]), canon_delta(w[3]));
+    let mut staged = serde_json::Map::new();
+    if w[1] != "-" {
+        for el in w[1].split(';') {
+            match elem_to_json(el) {
+                Some((kind, uri, v)) => {
+                    staged.insert(uri, serde_json::json!({ kind: v }));
+                }
+                None => return (line, "ret=badop".into()),
+            }
+        }
+    }
+    let (mut ps, mut us, mut ws) = (Vec::new(), Vec::new(), Vec::new());
+    if w[3] != "-" {
+        for el in w[3].split(';') {
+            match elem_to_json(el) {
+                Some((kind, _, v)) => match kind.as_str() {
+                    "Publish" => ps.push(v),
+                    "Update" => us.push(v),
+                    _ => ws.push(v),
+                },
+                None => return (line, "ret=badop".into()),
+            }
+        }
+    }
+    let delta = serde_json::json!({"publishes": ps, "updates": us, "withdraws": ws});
+    match krill::server::pubd::verif_merge_staged(serde_json::Value::Object(staged), delta) {
+        Ok(v) => {
+            let mut items: Vec<String> =
+                v.as_object().map(|o| o.values().map(Server::elem_json).collect()).unwrap_or_default();
+            items.sort();
+            (line, format!("ret={}", if items.is_empty() { "-".into() } else { items.join(";") }))
+        }
+        Err(_) => (line, "ret=err".into()),
+    }
+}
+
 struct Run {
     server: Option<Server>,
     seed: u64,
@@ -690,6 +747,9 @@ impl Run {
             );
             self.server = Some(server);
             return (line, obs);
+        }
+        if w[0] == "merge" {
+            return merge_op(op);
         }
         let server = match self.server.as_mut() {
             Some(s) => s,
